@@ -4,6 +4,10 @@ import json, subprocess
 G = "GOFLAGS=-mod=mod GOPROXY=off GOSUMDB=off GOTOOLCHAIN=local"
 TECH = "explicit TLA+ spec (abstract + implementation layer); TLC exhaustive refinement check; "
 CHECKS = {
+ "C06": dict(cat="model_checking", ref="DESIGN.md §5 C06",
+  text="spec/ParamStyle.tla states the OpenAPI 3.0.3 style table (Table), the ambiguity rule (MustRefuse/MayRefuse) and round-trip/escaping obligations; TLC checks that the table composed with the cursor-machine transcription of uri's decoders round-trips every bounded value of every admitted row, and judges, for all 168 (location, style, explode, shape) combinations, the admission observed on the real parser+generator and every value pushed through the real public uri encoders/decoders (raw wire, logical wire, decoded value, panics).",
+  note="Values bounded (primitives <=2/3 bytes over a 9-symbol delimiter alphabet, arrays <=3 items, objects <=2 fields) plus seeded random Unicode/byte members; for empty collections only 'no panic' is demanded (the table prescribes no form and [] / [\"\"] collide); percent-escaping of url.Values.Encode/PathEscape is environment. Trusted: TLC, Json module, net/url and net/http as carriers.",
+  tech=TECH+"TLC-enumerated replay into the uri codecs and parser/generator admission with TLC-evaluated observation check"),
  "C12": dict(cat="model_checking", ref="DESIGN.md §5 C12",
   text="TLC checks exhaustively that the pc-machine transcription of uri/normalize.go refines the abstract Canon/Invalid layer on all strings up to the bound, and the real function is bound to the same abstract layer by replaying every TLC-enumerated string (plus seeded random byte strings) through it and letting TLC judge each observed outcome; spec path keys are judged modulo the same equivalence through parser.Parse.",
   note="Bounded: strings up to length 6 (quick) / 7 (thorough) over a 9-symbol class alphabet, 7 / 9 over a 5-symbol one, random strings up to 64 bytes. Trusted: TLC, the CommunityModules Json reader, the byte<->int projection in prop/c12.",
